@@ -22,4 +22,297 @@ theorem sem_false : ¬ (∀ evs : List Ev,
   rw [hs, hd] at h1
   exact h1
 
+/-! ### what a value decoding appends (frame lemma) -/
+
+/-- what a successful value decoding does to the state: appends facts, adds seen keys -/
+def Post (s s' : St) (fs : List Fact) : Prop :=
+  s'.out = s.out ++ fs ∧ s'.arrays = s.arrays ∧ s'.cur = s.cur ∧ s'.curKey = s.curKey
+
+theorem Post.trans {s s1 s2 : St} {f1 f2 : List Fact} (h1 : Post s s1 f1) (h2 : Post s1 s2 f2) :
+    Post s s2 (f1 ++ f2) := by
+  obtain ⟨a1, b1, c1, d1⟩ := h1
+  obtain ⟨a2, b2, c2, d2⟩ := h2
+  refine ⟨?_, ?_, ?_, ?_⟩
+  · rw [a2, a1, List.append_assoc]
+  · rw [b2, b1]
+  · rw [c2, c1]
+  · rw [d2, d1]
+
+mutual
+theorem decodeExpr_frame : ∀ (v : Val) (rkey p : Path) (s s' : St),
+    decodeExpr rkey p v s = .ok s' → Post s s' (v.facts p)
+  | .sc a, rkey, p, s, s', h => by
+    rw [decodeExpr] at h
+    cases h
+    simp [Post, Val.facts]
+  | .arr xs, rkey, p, s, s', h => by
+    rw [decodeExpr] at h
+    have h2 := decodeElems_frame xs rkey p 0 _ s' h
+    have h1 : Post s { s with out := s.out ++ [(p, Leaf.arr)] } [(p, Leaf.arr)] := by simp [Post]
+    have := h1.trans h2
+    simpa [Val.facts] using this
+  | .inl kvs, rkey, p, s, s', h => by
+    rw [decodeExpr] at h
+    have h2 := decodeFields_frame kvs rkey p _ s' h
+    have h1 : Post s { s with out := s.out ++ [(p, Leaf.tbl)] } [(p, Leaf.tbl)] := by simp [Post]
+    have := h1.trans h2
+    simpa [Val.facts] using this
+theorem decodeElems_frame : ∀ (xs : List Val) (rkey p : Path) (i : Nat) (s s' : St),
+    decodeElems rkey p i xs s = .ok s' → Post s s' (factsElems p i xs)
+  | [], rkey, p, i, s, s', h => by
+    rw [decodeElems] at h
+    cases h
+    simp [Post, factsElems]
+  | x :: xs, rkey, p, i, s, s', h => by
+    rw [decodeElems] at h
+    split at h
+    · cases h
+    · next s1 h1 =>
+      have a := decodeExpr_frame x _ _ _ _ h1
+      have b := decodeElems_frame xs _ _ _ _ _ h
+      have := a.trans b
+      simpa [factsElems] using this
+theorem decodeFields_frame : ∀ (kvs : List (List Name × Val)) (rkey p : Path) (s s' : St),
+    decodeFields rkey p kvs s = .ok s' → Post s s' (factsFields p kvs)
+  | [], rkey, p, s, s', h => by
+    rw [decodeFields] at h
+    cases h
+    simp [Post, factsFields]
+  | kv :: rest, rkey, p, s, s', h => by
+    rw [decodeFields] at h
+    split at h
+    · cases h
+    · split at h
+      · cases h
+      · split at h
+        · cases h
+        · next s1 h1 =>
+          have a := decodeExpr_frame kv.2 _ _ _ _ h1
+          have b := decodeFields_frame rest _ _ _ _ h
+          have a' : Post s s1 (kv.2.facts (p ++ keyPath kv.1)) := a
+          have := a'.trans b
+          simpa [factsFields] using this
+end
+
+
+/-! ### store lemmas -/
+
+theorem dropLast_getLast? {α} (l : List α) (a : α) (h : l.getLast? = some a) :
+    l.dropLast ++ [a] = l := by
+  have hne : l ≠ [] := by intro e; subst e; simp at h
+  rw [List.getLast?_eq_some_getLast hne] at h
+  cases h
+  exact List.dropLast_concat_getLast hne
+
+theorem kindAt_define (σ : Store) (p r : Path) (k : Kind) :
+    kindAt (define σ p k) r = if p = r then some k else kindAt σ r := by
+  unfold kindAt define
+  by_cases h : p = r
+  · simp [h]
+  · simp [h]
+
+/-- no array of tables in the store -/
+def NoAot (σ : Store) : Prop := ∀ r n, kindAt σ r ≠ some (.aot n)
+
+/-- a path that is a header table or a value: what the decoder's `seen` keys are -/
+def HV (σ : Store) (r : Path) : Prop := kindAt σ r = some .header ∨ kindAt σ r = some .value
+
+def Stable (σ σ' : Store) : Prop := ∀ r, HV σ r → HV σ' r
+
+theorem Stable.refl (σ : Store) : Stable σ σ := fun _ h => h
+theorem Stable.trans {a b c : Store} (h1 : Stable a b) (h2 : Stable b c) : Stable a c :=
+  fun r h => h2 r (h1 r h)
+
+theorem stable_define_hv (σ : Store) (p : Path) (k : Kind) (hk : k = .header ∨ k = .value) :
+    Stable σ (define σ p k) := by
+  intro r h
+  unfold HV
+  rw [kindAt_define]
+  by_cases e : p = r
+  · simp [e]; rcases hk with hk | hk <;> simp [hk]
+  · simp [e]; exact h
+
+theorem stable_define_fresh (σ : Store) (p : Path) (k : Kind) (hn : ¬ HV σ p) :
+    Stable σ (define σ p k) := by
+  intro r h
+  unfold HV
+  rw [kindAt_define]
+  by_cases e : p = r
+  · subst e; exact absurd h hn
+  · simp [e]; exact h
+
+theorem hv_define (σ : Store) (p : Path) (k : Kind) (hk : k = .header ∨ k = .value) :
+    HV (define σ p k) p := by
+  unfold HV; rw [kindAt_define]; simp; exact hk
+
+theorem noAot_define (σ : Store) (p : Path) (k : Kind) (hk : ∀ n, k ≠ .aot n) (h : NoAot σ) :
+    NoAot (define σ p k) := by
+  intro r n
+  rw [kindAt_define]
+  by_cases e : p = r
+  · simp [e]; exact hk n
+  · simp [e]; exact h r n
+
+theorem walkDotted_spec : ∀ (ks : List Name) (σ : Store) (cur : Path) (σ1 : Store) (q : Path),
+    walkDotted σ cur ks = .ok (σ1, q) →
+    q = cur ++ keyPath ks ∧ Stable σ σ1 ∧ (NoAot σ → NoAot σ1)
+  | [], σ, cur, σ1, q, h => by
+    rw [walkDotted] at h
+    cases h
+    simp [keyPath, Stable.refl]
+  | k :: ks, σ, cur, σ1, q, h => by
+    rw [walkDotted] at h
+    split at h
+    · next hk =>
+      obtain ⟨a, b, c⟩ := walkDotted_spec ks _ _ _ _ h
+      refine ⟨by simpa [keyPath] using a, ?_, ?_⟩
+      · refine Stable.trans (stable_define_fresh _ _ _ ?_) b
+        simp [HV, hk]
+      · intro hn; exact c (noAot_define _ _ _ (by intro n; simp) hn)
+    · obtain ⟨a, b, c⟩ := walkDotted_spec ks _ _ _ _ h
+      exact ⟨by simpa [keyPath] using a, b, c⟩
+    · cases h
+    · cases h
+
+theorem walkHeader_spec_na : ∀ (ks : List Name) (σ : Store) (cur : Path) (σ1 : Store) (q : Path),
+    walkHeader σ cur ks = .ok (σ1, q) → NoAot σ →
+    q = cur ++ keyPath ks ∧ Stable σ σ1 ∧ NoAot σ1
+  | [], σ, cur, σ1, q, h, hn => by
+    rw [walkHeader] at h
+    cases h
+    simp [keyPath, Stable.refl, hn]
+  | k :: ks, σ, cur, σ1, q, h, hn => by
+    rw [walkHeader] at h
+    split at h
+    · next hk =>
+      obtain ⟨a, b, c⟩ := walkHeader_spec_na ks _ _ _ _ h
+        (noAot_define _ _ _ (by intro n; simp) hn)
+      refine ⟨by simpa [keyPath] using a, ?_, c⟩
+      refine Stable.trans (stable_define_fresh _ _ _ ?_) b
+      simp [HV, hk]
+    · cases h
+    · next n hk => exact absurd hk (hn _ _)
+    · obtain ⟨a, b, c⟩ := walkHeader_spec_na ks _ _ _ _ h hn
+      exact ⟨by simpa [keyPath] using a, b, c⟩
+
+
+
+/-! ### documents without `[[array.of.tables]]` headers -/
+
+def SeenInv (σ : Store) (seen : List Path) : Prop := ∀ k ∈ seen, HV σ k
+
+theorem SeenInv.mono {σ σ' : Store} {seen : List Path} (h : SeenInv σ seen) (hs : Stable σ σ') :
+    SeenInv σ' seen := fun k hk => hs k (h k hk)
+
+/-- result of the value-level simulation -/
+def Good (σ σ' : Store) (s' : St) : Prop :=
+  SeenInv σ' s'.seen ∧ Stable σ σ' ∧ (NoAot σ → NoAot σ')
+
+mutual
+theorem decExpr_na : ∀ (v : Val) (p : Path) (s : St) (σ σ' : Store),
+    defineVal p v σ = .ok σ' → s.arrays = [] → (∀ k ∈ s.seen, k = p ∨ HV σ k) →
+    ∃ s', decodeExpr p p v s = .ok s' ∧ Good σ σ' s'
+  | .sc a, p, s, σ, σ', hd, ha, hs => by
+    rw [defineVal] at hd
+    cases hd
+    rw [decodeExpr]
+    refine ⟨_, rfl, ?_, stable_define_hv _ _ _ (.inr rfl), noAot_define _ _ _ (by intro n; simp)⟩
+    intro k hk
+    rcases hs k hk with e | e
+    · subst e; exact hv_define _ _ _ (.inr rfl)
+    · exact stable_define_hv _ _ _ (.inr rfl) _ e
+  | .arr xs, p, s, σ, σ', hd, ha, hs => by
+    rw [defineVal] at hd
+    rw [decodeExpr]
+    have hs0 : SeenInv (define σ p .value) s.seen := by
+      intro k hk
+      rcases hs k hk with e | e
+      · subst e; exact hv_define _ _ _ (.inr rfl)
+      · exact stable_define_hv _ _ _ (.inr rfl) _ e
+    obtain ⟨s', h1, g1, g2, g3⟩ := decElems_na xs p 0 { s with out := s.out ++ [(p, Leaf.arr)] } _ _ hd ha hs0
+    exact ⟨s', h1, g1, (stable_define_hv _ _ _ (.inr rfl)).trans g2,
+      fun hn => g3 (noAot_define _ _ _ (by intro n; simp) hn)⟩
+  | .inl kvs, p, s, σ, σ', hd, ha, hs => by
+    rw [defineVal] at hd
+    rw [decodeExpr]
+    have hs0 : SeenInv (define σ p .value) s.seen := by
+      intro k hk
+      rcases hs k hk with e | e
+      · subst e; exact hv_define _ _ _ (.inr rfl)
+      · exact stable_define_hv _ _ _ (.inr rfl) _ e
+    obtain ⟨s', h1, g1, g2, g3⟩ := decFields_na kvs p { s with out := s.out ++ [(p, Leaf.tbl)] } _ _ hd ha hs0
+    exact ⟨s', h1, g1, (stable_define_hv _ _ _ (.inr rfl)).trans g2,
+      fun hn => g3 (noAot_define _ _ _ (by intro n; simp) hn)⟩
+theorem decElems_na : ∀ (xs : List Val) (p : Path) (i : Nat) (s : St) (σ σ' : Store),
+    defineElems p i xs σ = .ok σ' → s.arrays = [] → SeenInv σ s.seen →
+    ∃ s', decodeElems p p i xs s = .ok s' ∧ Good σ σ' s'
+  | [], p, i, s, σ, σ', hd, ha, hs => by
+    rw [defineElems] at hd
+    cases hd
+    rw [decodeElems]
+    exact ⟨_, rfl, hs, Stable.refl _, id⟩
+  | x :: xs, p, i, s, σ, σ', hd, ha, hs => by
+    rw [defineElems] at hd
+    split at hd
+    · cases hd
+    · next σ1 hd1 =>
+      obtain ⟨s1, h1, g1, g2, g3⟩ := decExpr_na x (p ++ [.idx i]) s σ σ1 hd1 ha
+        (fun k hk => .inr (hs k hk))
+      have ha1 : s1.arrays = [] := by rw [(decodeExpr_frame _ _ _ _ _ h1).2.1, ha]
+      obtain ⟨s2, h2, k1, k2, k3⟩ := decElems_na xs p (i + 1) s1 σ1 σ' hd ha1 g1
+      rw [decodeElems, h1]
+      exact ⟨s2, h2, k1, g2.trans k2, fun hn => k3 (g3 hn)⟩
+theorem decFields_na : ∀ (kvs : List (List Name × Val)) (p : Path) (s : St) (σ σ' : Store),
+    defineFields p kvs σ = .ok σ' → s.arrays = [] → SeenInv σ s.seen →
+    ∃ s', decodeFields p p kvs s = .ok s' ∧ Good σ σ' s'
+  | [], p, s, σ, σ', hd, ha, hs => by
+    rw [defineFields] at hd
+    cases hd
+    rw [decodeFields]
+    exact ⟨_, rfl, hs, Stable.refl _, id⟩
+  | kv :: rest, p, s, σ, σ', hd, ha, hs => by
+    rw [defineFields] at hd
+    split at hd
+    · cases hd
+    · cases hd
+    · next k σ1 q hl hw =>
+      simp only [] at hd
+      split at hd
+      · cases hd
+      · next hnone =>
+        split at hd
+        · cases hd
+        · next σ2 hd2 =>
+          obtain ⟨hq, st1, na1⟩ := walkDotted_spec _ _ _ _ _ hw
+          have hleaf : q ++ [Seg.key k] = p ++ keyPath kv.1 := by
+            rw [hq, List.append_assoc]
+            congr 1
+            have := dropLast_getLast? _ _ hl
+            rw [← this]; simp [keyPath]
+          rw [hleaf] at hnone hd2
+          have hnotseen : (p ++ keyPath kv.1) ∉ s.seen := by
+            intro hm
+            have := st1 _ (hs _ hm)
+            simp [HV, hnone] at this
+          have hs1 : ∀ k' ∈ (p ++ keyPath kv.1) :: s.seen, k' = p ++ keyPath kv.1 ∨ HV σ1 k' := by
+            intro k' hk'
+            rcases List.mem_cons.1 hk' with e | e
+            · exact .inl e
+            · exact .inr (st1 _ (hs _ e))
+          obtain ⟨s1, h1, g1, g2, g3⟩ := decExpr_na kv.2 (p ++ keyPath kv.1)
+            { s with seen := (p ++ keyPath kv.1) :: s.seen } σ1 σ2 hd2 ha hs1
+          have ha1 : s1.arrays = [] := by rw [(decodeExpr_frame _ _ _ _ _ h1).2.1]; exact ha
+          obtain ⟨s2, h2, k1, k2, k3⟩ := decFields_na rest p s1 σ2 σ' hd ha1 g1
+          refine ⟨s2, ?_, k1, (st1.trans g2).trans k2, fun hn => k3 (g3 (na1 hn))⟩
+          rw [decodeFields]
+          have hfa : findArray s.arrays (p ++ keyPath kv.1) = none := by rw [ha]; rfl
+          simp only [hfa, Option.isSome_none, Bool.false_eq_true, if_false]
+          rw [if_neg (by simpa using hnotseen)]
+          simp only [h1]
+          exact h2
+end
+
+
+--NEXT
+
 end CueVerif.Toml
